@@ -100,7 +100,7 @@ RE_MARKUP = re.compile(r"(\{%.*?%\}|\{\{.*?\}\}|\{#+.*?#+\})", re.S)
 
 def _has(chk: MON.Checker, case: dict[str, Any], key: str) -> bool:
     try:
-        res = MON.run_case(chk, case)
+        res = MON.run_case(chk, case, only=key)
     except Exception:  # noqa: BLE001
         return False
     return res is not None and any(k == key for k, _, _ in res)
@@ -115,8 +115,8 @@ def minimise(case: dict[str, Any], key: str) -> dict[str, Any]:
     if _has(chk, c0, key):
         c = c0
     else:
-        for d in c["datasets"]:
-            c1 = dict(c, datasets=[d])
+        for i, d in enumerate(c["datasets"]):
+            c1 = dict(c, datasets=[d], modes=["async" if i % 3 == 2 else "sync"])
             if _has(chk, c1, key):
                 c = c1
                 break
